@@ -124,6 +124,7 @@ Roots == { [t |-> "dc", c |-> "Box",
 Inv_Serialisable   == ~chk \/ \A r \in Roots : Prop_Serialisable(MetaE, r)
 Inv_RoundTrip      == ~chk \/ \A r \in Roots : Prop_RoundTrip(MetaE, r)
 Inv_BinaryExcluded == ~chk \/ \A r \in Roots : Prop_BinaryExcluded(MetaE, r)
+Inv_BinaryWhereDeclared == ~chk \/ \A r \in Roots : Prop_BinaryOnlyInBinaryFields(MetaE, r)   \* W is well-typed
 \* units are serialised through serialize_extraction as well: always a JSON object
 Inv_Wrap           == ~chk \/ \A r \in Roots : Wrap(Ser(MetaE, r, FALSE)).t \in {"obj", "eobj"}
 \* the law outside the domain of the open finding (holds with Deviations = {"NoMarkerEscape"})
